@@ -323,3 +323,48 @@ Print Assumptions C15_session_hypotheses_satisfiable.
 Print Assumptions C15_tied_level_witness.
 Print Assumptions C15_later_resume_no_replay.
 Print Assumptions C15_refuted_check_before_pop.
+
+(* ================================================================== *)
+From Pcfg Require Import OmenGenRt OmenGenRtProofs OmenGenOptProofs OmenGenGsProofs OmenGenGsNextProofs OmenGenMcProofs
+     OmenGenGenProofs.
+From PcfgGen Require Import Consts_gen OmenGen_opt_gen OmenGen_gs_gen OmenGen_mc_gen.
+(* Translator tie: C15_continuation over the code translated from the Python text
+   of optimizer.py / guess_structure.py / markov_cracker.py on every run
+   (gen/OmenGen_*_gen.v; equalities in theories/OmenGen*Proofs.v).  The object
+   load_session leaves for the pickled state (mk_py: target level, cursors, a
+   GuessStructure built from the cursors holding the pickled parse tree and
+   first_guess), driven by the translated next_guess with ANY sound Optimizer,
+   emits exactly the rest of the level and then None.  save_session /
+   load_session themselves (pickle I/O) are not translated. *)
+Theorem C15_source_continuation : forall G T c c2 o2 j s_ip s_len l out st c1 fuel,
+  cache_ok (cp_fast G) (og_max_level G) c ->
+  oinv G omen_optimizer_max_length o2 c2 ->
+  mc_starts (ip_at G) (ln_at G) (og_max_level G) omen_first_object_extra = Some (s_ip, s_len) ->
+  j < length (level_strings G T) ->
+  enumerate (ip_at G) (cp_fast G) (ln_at G) (og_max_level G) omen_optimizer_max_length omen_first_object_extra (S j) c T =
+    Some (l, out, st, c1) ->
+  fuel >= omen_fuel G ->
+  exists m2 o3 c3,
+    py_mc_run (S (length (skipn (S j) (level_strings G T)))) fuel
+              (mk_py (ip_at G) (ln_at G) (build_cp (og_cp G)) (og_max_level G) (Z.of_nat (og_ngram G)) s_ip s_len
+                     (mc_load (mc_save st))) o2 =
+      Ok (skipn (S j) (level_strings G T), true, m2, o3) /\
+    oinv G omen_optimizer_max_length o3 c3.
+Proof. exact (fun G => continuation_translated G omen_optimizer_max_length C15_source_first_object_range). Qed.
+
+(* the Optimizer of the new process (translated constructor) is sound *)
+Theorem C15_source_new_optimizer_is_sound : forall G fuel,
+  exists o, py_opt_init fuel (Z.of_nat omen_optimizer_max_length) = Ok o /\ oinv G omen_optimizer_max_length o cempty.
+Proof. exact (fun G => opt_init_translated G omen_optimizer_max_length). Qed.
+
+(* save_session / load_session are pickle I/O and not translated; what the model says about them
+   (mc_save = (target_level, cur_ip, cur_len, parse_tree, first_guess), mc_load puts them back) is
+   pinned to the source: the order of the pickle.dump calls and of the pickle.load assignments
+   (codes 1..5 in that order; harness/consts/zz_omen_gen.py also checks that load_session rebuilds
+   the GuessStructure from the loaded cursors with the constructor call _increase_ip_for_target
+   uses, then overwrites parse_tree and first_guess) *)
+Theorem C15_source_pickle_field_order :
+  omen_save_order = [1; 2; 3; 4; 5]%N /\ omen_load_order = [1; 2; 3; 4; 5]%N.
+Proof. split; reflexivity. Qed.
+
+Print Assumptions C15_source_continuation.
